@@ -10,7 +10,7 @@ from sa.selftest import Mutant, Silent
 from sa.source import AnalysisError, class_assigns
 from sa.props._lib_e_machine import PyRaise, exc_name
 from sa.props._lib_e_http import Harness, check_name_encoder_behaviour
-from sa.props._lib_e_struct import (c19_bad_request_helper, c19_framing_decision, c19_identity_decoder, c19_int_provenance, c19_reject_discipline, structural)
+from sa.props._lib_e_struct import (c19_fold_clause, c19_bad_request_helper, c19_framing_decision, c19_identity_decoder, c19_int_provenance, c19_reject_discipline, structural)
 from sa.props._lib_e import (Unknown, assigns_self, call_in, calls_named, catches, check_hex_validators, check_name_encoder, check_token_validator, falsy_until_exit,
                              handlers_of, http_interp, is_const, is_falsy_return, local_values, make_env, only_nodes_until_exit,
                              ordered, resolve_local, risky_calls, self_attr, site_label, walk)
@@ -33,14 +33,16 @@ EXPLANATION = (
     'istoken/_ishexdigits/_hexint/_parseRequestLine over all 256 byte values in every position class plus idiom pitfalls (byte-class/, request-line/); the '
     'framing decision of _maybeChooseTransferDecoder under every valuation of its guards - header in {Content-Length, Transfer-Encoding, other} x value cla'
     'ss (1*DIGIT or not; chunked / identity / other coding) x decoder already chosen or not (decision/): non-digit lengths, unknown codings, repeated or co'
-    'nflicting framing headers fail; identity decoder over every ordering of len(data) vs contentLength (ordering/). STRUCTURAL: int() on header data domin'
-    'ated by the digit test, length/decoder/callbacks installed together from the validated value (provenance/); every 400 site is followed only by falsy r'
-    "eturns, every validating method's result is used (F19b = the one dropped result, known), decoder errors reach a 400, the 400 helper writes the status "
-    'line then closes (mustpass/); the name-encoder cache is filled and read only behind _istoken (header-name/); handler bodies cannot raise on untrusted '
-    'bytes (reject/reject-path-cannot-raise). BOUNDED ONLY: agreement of the delivered requests with the reference decision on generated header blocks and '
-    'deliveries (framing/), nothing processed after a 400 on a transport that keeps delivering (reject/nothing-processed-after-400), presence of each indiv'
-    "idual syntax check in headerReceived (colon, NUL, OWS) - a structural decider for 'a check is present' would have to pin the shape. Not decided: obs-f"
-    'old, agreement with an independent parser beyond the generated grammar.'
+    'nflicting framing headers fail; identity decoder over every ordering of len(data) vs contentLength (ordering/); a whitespace-preceded line with no hea'
+    'der pending never becomes a header of its own - partial evaluation of the inlined lineReceived for leading SP / HTAB / mixed whitespace (fold/). STRUC'
+    'TURAL: int() on header data dominated by the digit test, length/decoder/callbacks installed together from the validated value (provenance/); every 400'
+    " site is followed only by falsy returns, every validating method's result is used (F19b = the one dropped result, known), decoder errors reach a 400, "
+    'the 400 helper writes the status line then closes (mustpass/); the name-encoder cache is filled and read only behind _istoken (header-name/); handler '
+    'bodies cannot raise on untrusted bytes (reject/reject-path-cannot-raise). BOUNDED ONLY: agreement of the delivered requests with the reference decisio'
+    'n on generated header blocks and deliveries (framing/), nothing processed after a 400 on a transport that keeps delivering (reject/nothing-processed-a'
+    "fter-400), presence of each individual syntax check in headerReceived (colon, NUL, OWS) - a structural decider for 'a check is present' would have to "
+    'pin the shape. obs-fold positions (continuation of a header, lone continuation after the request line) are part of the generated grammar. Not decided:'
+    ' agreement with an independent parser beyond the generated grammar.'
 )
 ASSUMPTIONS = [
     'CPython semantics for the builtin values the interpreter delegates to (bytes, int, list, dict, re on constant patterns)',
@@ -110,6 +112,21 @@ def _request_line(ctx, I):
 # ---- behaviour of the channel, by interpretation ------------------------------------------------------------------------
 BAD_REQUEST = b"HTTP/1.1 400 Bad Request\r\n\r\n"
 NEXT = b"POST /next HTTP/1.1\r\nHost: y\r\nContent-Length: 2\r\n\r\nhi"
+
+
+def _unfold(lines):
+    """obs-fold: continuation lines joined to the previous header line with one space; returns (lines, lone) where lone lists the
+    whitespace-preceded lines that follow the request line directly."""
+    out, lone = [lines[0]], []
+    for ln in lines[1:]:
+        if ln[:1] in (b" ", b"\t"):
+            if len(out) == 1:
+                lone.append(ln)
+            else:
+                out[-1] = out[-1] + b" " + ln.lstrip(b" \t")
+        else:
+            out.append(ln)
+    return out, lone
 
 
 def _ref_block(lines, max_headers=500, max_size=16384):
@@ -183,6 +200,15 @@ def _blocks(tier):
     for r in (b"GET /x HTTP/1.1", b"GET  /x HTTP/1.1", b"GET /x HTTP/1.2", b"G@T /x HTTP/1.1", b"GET /\x7f HTTP/1.1", b"GET /\xb0 HTTP/1.1", b"GET /x", b"GET /x HTTP/1.1 ", b"GET\n /x HTTP/1.1",
               b"GET /x HTTP/1.0", b"OPTIONS * HTTP/1.1", b"GET /x\tHTTP/1.1", b"/x HTTP/1.1"):
         out.append(("request-line", [r] + host))
+    # obs-fold (RFC 9112 5.2 / 2.2): a line starting with SP / HTAB continues the previous header line; directly after the request line there is
+    # nothing to continue: the message must be rejected or the line ignored - it must never become a header of its own
+    for ln in (b" Content-Length: 3", b"\tTransfer-Encoding: chunked", b"  X-Lone: 1", b" Content-Length: 3 ", b"\t \tContent-Length: 3"):
+        out.append(("fold-after-request-line", [rl, ln] + host))
+        out.append(("fold-after-request-line", [rl, ln]))
+    out.append(("fold-continues-header", [rl] + host + [b"X-Fold: a", b"  b", b"\tc"]))
+    out.append(("fold-continues-header", [rl] + host + [b"Content-Length:", b" 3"]))
+    out.append(("fold-continues-header", [rl] + host + [b"X-A: 1", b" Content-Length: 3"]))
+    out.append(("fold-continues-header", [rl] + host + [b"Transfer-Encoding:", b"\tchunked", b"X-B: 2"]))
     out.append(("no-framing-headers", [rl] + host + [b"X-A: 1", b"X-A: 2", b"Accept: a:b:c", b"X-Empty:"]))
     if tier != "quick":
         out.append(("limits", [rl] + host + [b"X-%d: v" % i for i in range(499)]))
@@ -236,7 +262,9 @@ def _framing(ctx, H):
         bad = None
         n = 0
         for lines in blocks:
-            want = _ref_block(lines)
+            unfolded, lone = _unfold(lines)
+            want = _ref_block(unfolded)
+            alt_reject = bool(lone)            # RFC 9112 2.2: reject the message, or consume the lone whitespace-preceded lines without processing them
             block = b"\r\n".join(lines) + b"\r\n\r\n"
             if fam == "malformed-chunked-body":
                 want, (wire_body, body) = None, (bytes.fromhex(lines[-1].split(b": ")[1].decode()), b"")
@@ -276,6 +304,8 @@ def _framing(ctx, H):
                     bad = (lines, how, f"{o.kind} {o.exc_name}")
                     break
                 seen, wire, closed, esc, counts = o.value
+                if alt_reject and seen == [] and wire == BAD_REQUEST and closed and esc is None:
+                    continue
                 if want is None:
                     ok = seen == [] and wire == BAD_REQUEST and closed and esc is None
                     exp = "400 Bad Request, connection closed, nothing handed to the application"
@@ -364,7 +394,8 @@ RULE_KINDS = {
     "byte-class/": "finite-exhaustive",     # validators evaluated over all 256 byte values in every position class + idiom pitfalls
     "request-line/": "finite-exhaustive",   # every byte value in method / target / version position + structural line forms
     "decision/": "finite-exhaustive",       # _maybeChooseTransferDecoder under every valuation of its guards (header class x value class x decoder present)
-    "ordering/": "finite-exhaustive",       # identity decoder: every ordering of len(data) vs contentLength
+    "ordering/": "finite-exhaustive",
+    "fold/": "finite-exhaustive",           # lone continuation line: every valuation of lineReceived's guards for SP / HTAB / mixed leading whitespace       # identity decoder: every ordering of len(data) vs contentLength
     "mustpass/": "structural",              # must-pass-through / dominance on the inlined CFGs
     "provenance/": "structural",            # def-use / provenance of length, decoder, callbacks, int() argument
     "header-name/cache": "structural", "header-name/validated": "structural", "header-name/invalid-raises": "structural",
@@ -383,6 +414,7 @@ def check(ctx):
     structural(ctx, "C19 framing decision over all guard valuations", lambda s: c19_framing_decision(s, I), "framing/content-length-value, framing/transfer-coding, framing/conflicting-framing (bounded)")
     structural(ctx, "C19 int() provenance", lambda s: c19_int_provenance(s, I), "framing/content-length-value (bounded)")
     structural(ctx, "C19 reject discipline (400 and stop, results used, decoder errors)", lambda s: c19_reject_discipline(s, I), "framing/* and reject/nothing-processed-after-400 (bounded)")
+    structural(ctx, "C19 lone continuation line", lambda s: c19_fold_clause(s, I), "framing/fold-after-request-line (bounded)")
     structural(ctx, "C19 400 helper", lambda s: c19_bad_request_helper(s), "framing/* (bounded)")
     structural(ctx, "C19 identity decoder orderings", lambda s: c19_identity_decoder(s, ctx), "framing/* split deliveries (bounded)")
     structural(ctx, "C19 header-name encoder cache discipline", lambda s: check_name_encoder(s, I), "header-name/invalid-refused-every-time (bounded)")
@@ -447,10 +479,12 @@ MUTANTS = [
     Mutant("token-first-byte-only", ABNF, "    for c in b:\n        if c not in (\n", "    for c in b[:1]:\n        if c not in (\n"),
     Mutant("invalid-name-logged-with-strict-decode", HTTP, "        except InvalidHeaderName:\n            self._respondToBadRequestAndDisconnect()\n            return False",
            "        except InvalidHeaderName:\n            self._log.info(\"bad header name {n}\", n=header.decode(\"ascii\"))\n            self._respondToBadRequestAndDisconnect()\n            return False"),
+    Mutant("fold-pieces-joined-without-leading-separator", HTTP, "            self.__header += b\" \" + line.lstrip(b\" \\t\")", "            self.__header = b\" \".join([p for p in (self.__header, line.lstrip(b\" \\t\")) if p])"),
     Mutant("name-cache-before-validation", HDRS, "        if not _istoken(bytes_name):\n            raise InvalidHeaderName(bytes_name)\n\n        result =",
            "        result ="),
 ]
 SILENT = [
+    Silent("fold-separator-by-join", HTTP, "            self.__header += b\" \" + line.lstrip(b\" \\t\")", "            self.__header = b\" \".join((self.__header, line.lstrip(b\" \\t\")))"),
     Silent("header-prologue-in-helper", HTTP, "        try:\n            header, data = line.split(b\":\", 1)\n        except ValueError:\n            self._respondToBadRequestAndDisconnect()\n            return False\n",
            "        pair = self._nameAndValue(line)\n        if pair is None:\n            self._respondToBadRequestAndDisconnect()\n            return False\n        header, data = pair\n",
            more=[(HTTP, "    def allContentReceived(self):\n", "    def _nameAndValue(self, line):\n        name, colon, value = line.partition(b\":\")\n        if not colon:\n            return None\n        return name, value\n\n    def allContentReceived(self):\n")]),
